@@ -79,7 +79,7 @@ TNext ==
        [] E.ev \in {"Stop", "ReloadBegin"} -> UNCHANGED o
        [] E.ev = "ReloadEnd" ->
             \* a reload with an invalid or incompatible configuration only moves the failure count; a valid one the success count
-            /\ P17 => (E.kind \in {"invalid", "incompatible", "keysdrop"} => E.failure + E.success = E.before + 1 /\ E.failure >= 1 /\ E.success = E.before - (E.failure - 1))
+            /\ P17 => (E.kind \in {"invalid", "incompatible", "keysdrop", "addoutput"} => E.failure + E.success = E.before + 1 /\ E.failure >= 1 /\ E.success = E.before - (E.failure - 1))
             /\ P17 => (E.kind \in {"same", "transform"} => E.success + E.failure = E.before + 1 /\ E.success >= 1)
             /\ UNCHANGED o
        [] E.ev = "Stopped" -> (P18 => E.ms <= StopBoundMs) /\ o' = [o EXCEPT !.stopped = TRUE]      \* C18
@@ -105,6 +105,7 @@ TNext ==
             /\ UNCHANGED o
        [] E.ev = "Drained" -> ((P01 \/ P17) => SentRecs \subseteq o.acked) /\ UNCHANGED o       \* finally healthy: everything acknowledged
        [] E.ev = "RESET" -> o.stopped /\ o' = O0
+       [] OTHER -> FALSE      \* HUNG, Panic, HarnessError, ...: no action explains them
 TSpec == TInit /\ [][TNext]_<<l, o>>
 HWM == IF l > TLCGet(1) THEN TLCSet(1, l) ELSE TRUE
 Accepted_ == IF TLCGet(1) = Len(Trace) + 1 THEN TRUE
